@@ -54,11 +54,11 @@ example : annEq exA exB = true ∧ annEq exB exA = true ∧ exA ≠ exB := by de
 eleven sequential tests of `__eq__`, with the key-union loop over internal mods replaced by "for every index") -/
 theorem eq_iff_equiv (a b : Annotation) : annEq a b = true ↔ AnnEquiv a b := annEq_iff a b
 
-/-- `a == b` iff the canonical forms are equal. `canon` (Lemmas/AnnotCanon.lean) keeps residues and charge and
+/-- `a == b` iff the canonical forms are equal. `eqCanon` (Lemmas/AnnotCanon.lean) keeps residues and charge and
 replaces every mod list by the *multiset* of its canonical `(valKey, multiplier)` keys (`Multiset` = lists up to
 reordering), the internal dict by the function index ↦ multiset (None for a missing index), and the interval
 list by the multiset of `(start, end, ambiguous, multiset of keys)` -/
-theorem eq_iff_canon (a b : Annotation) : annEq a b = true ↔ canon a = canon b := annEq_iff_canon a b
+theorem eq_iff_canon (a b : Annotation) : annEq a b = true ↔ eqCanon a = eqCanon b := annEq_iff_canon a b
 
 /-- two mod lists are equal iff their multisets of (value as Python compares it, multiplier) keys are equal:
 `modKey` is the canonical form of one mod (an int and a float with the same decimal value have the same key) -/
@@ -259,7 +259,7 @@ theorem add_get_inverse_eq (a : Annotation) (app : Bool) : annEq (addModDict (st
 
 /-- the wrappers: `add_mods(strip_mods(x), get_mods(x))` and `add_mods(*pop_mods(x))` (default `append=True`) -/
 theorem pt_add_get_inverse (a : Annotation) (h : a.internal ≠ some []) :
-    addMods { seq := stripMods a } (getMods a) = a ∧ addMods { seq := (ptPopMods a).1 } (ptPopMods a).2 = a :=
+    ptAddMods { seq := stripMods a } (getMods a) = a ∧ ptAddMods { seq := (ptPopMods a).1 } (ptPopMods a).2 = a :=
   ⟨add_get_inverse a true h, add_get_inverse a true h⟩
 
 example : exA.internal ≠ some [] ∧ addModDict (strip exA) (modDict exA) = exA := by decide
